@@ -8,6 +8,7 @@ mod common;
 mod gen;
 mod nsscope;
 mod props;
+mod xmlread;
 mod xmlwrite;
 
 use common::*;
@@ -71,6 +72,7 @@ fn main() {
         "C06" => c06,
         "C07" => c07,
         "C09" => c09,
+        "C10" => c10,
         "C13" => c13,
         "C14" => c14,
         "C15" => c15,
